@@ -11,40 +11,54 @@ Proof.
 Qed.
 
 (* ---------- the keyed table finds the first match when keys are determined by matches ---------- *)
-Lemma find_rule_strict rs : forall i name file,
-  (forall r, In r rs -> rule_matches r name file = true -> key_eqb (key4 (key_text r)) (key4 name) = true) ->
-  find_rule rs i name file true = find_rule rs i name file false.
+Lemma find_rule_lower sel rs : forall i name file j k, find_rule sel rs i name file = Matched j k -> (i <= j)%nat.
 Proof.
-  induction rs as [|r t IH]; intros i name file H; [reflexivity|]. cbn [find_rule].
+  induction rs as [|r t IH]; intros i name file j k H; cbn [find_rule] in H; [discriminate|].
+  destruct (sel r && rule_matches r name file); [injection H as <- _; lia|]. apply IH in H. lia.
+Qed.
+
+(* splitting the rules into two classes and taking the earlier of the two first matches is the first match overall *)
+Lemma find_rule_split (sel : rule -> bool) rs : forall i name file,
+  first_of (find_rule sel rs i name file) (find_rule (fun r => negb (sel r)) rs i name file) = find_rule (fun _ => true) rs i name file.
+Proof.
+  induction rs as [|r t IH]; intros i name file; cbn [find_rule]; [reflexivity|].
+  destruct (rule_matches r name file) eqn:Em; destruct (sel r) eqn:Es; cbn [andb negb].
+  - destruct (find_rule (fun r0 => negb (sel r0)) t (S i) name file) as [j l|] eqn:E; cbn [first_of]; [|reflexivity].
+    apply find_rule_lower in E. destruct (Nat.ltb_spec i j); [reflexivity|lia].
+  - destruct (find_rule sel t (S i) name file) as [j l|] eqn:E; cbn [first_of]; [|reflexivity].
+    apply find_rule_lower in E. destruct (Nat.ltb_spec j i); [lia|reflexivity].
+  - apply IH.
+  - apply IH.
+Qed.
+
+Lemma find_rule_ext (s1 s2 : rule -> bool) rs : forall i name file,
+  (forall r, In r rs -> rule_matches r name file = true -> s1 r = s2 r) ->
+  find_rule s1 rs i name file = find_rule s2 rs i name file.
+Proof.
+  induction rs as [|r t IH]; intros i name file H; cbn [find_rule]; [reflexivity|].
   destruct (rule_matches r name file) eqn:Em.
-  - rewrite (H r (or_introl eq_refl) Em). reflexivity.
-  - rewrite andb_false_r. cbn. apply IH. intros r' Hin. apply H. right. assumption.
+  - rewrite (H r (or_introl eq_refl) Em). destruct (s2 r); cbn [andb]; [reflexivity|]. apply IH. intros r' Hin. apply H. right; exact Hin.
+  - rewrite !andb_false_r. apply IH. intros r' Hin. apply H. right; exact Hin.
 Qed.
 
 Lemma find_rule_spec rs : forall i name file,
   (forall r, In r rs -> rule_matches r name file = spec_matches r name file) ->
-  find_rule rs i name file false = first_match rs i name file.
+  find_rule (fun _ => true) rs i name file = first_match rs i name file.
 Proof.
   induction rs as [|r t IH]; intros i name file H; [reflexivity|]. cbn [find_rule first_match andb].
   rewrite (H r (or_introl eq_refl)). destruct (spec_matches r name file); [reflexivity|].
   apply IH. intros r' Hin. apply H. right. assumption.
 Qed.
 
-Definition key_ok (r : rule) : Prop := exists k, key4 (key_text r) = Some k.
-
 Theorem lookup_is_first_match rs name file :
-  (forall r, In r rs -> key_ok r) ->
-  (forall r, In r rs -> rule_matches r name file = true -> key_eqb (key4 (key_text r)) (key4 name) = true) ->
+  (forall r, In r rs -> keyed r = true -> rule_matches r name file = true -> key_eqb (key4 (key_text r)) (key4 name) = true) ->
   (forall r, In r rs -> rule_matches r name file = spec_matches r name file) ->
-  (4 <= length name)%nat ->
   lookup rs name file = first_match rs 0 name file.
 Proof.
-  intros Hk Hkey Hag Hlen. unfold lookup.
-  assert (E : existsb (fun r => match key4 (key_text r) with None => true | Some _ => false end) rs = false).
-  { apply not_true_is_false. intros Hx. apply existsb_exists in Hx. destruct Hx as (r & Hin & Hr).
-    destruct (Hk r Hin) as [k Hkk]. rewrite Hkk in Hr. discriminate. }
-  rewrite E. unfold key4 at 1. destruct (Nat.ltb_spec (length name) 4); [lia|].
-  rewrite find_rule_strict by assumption. apply find_rule_spec. assumption.
+  intros Hkey Hag. unfold lookup.
+  rewrite (find_rule_ext (fun r => keyed r && key_eqb (key4 (key_text r)) (key4 name)) keyed).
+  - rewrite find_rule_split. apply find_rule_spec. assumption.
+  - intros r Hin Hm. destruct (keyed r) eqn:Ek; [|reflexivity]. rewrite (Hkey r Hin Ek Hm). reflexivity.
 Qed.
 
 (* ---------- patterns with four ordinary leading bytes determine the name's first four bytes ---------- *)
@@ -139,16 +153,12 @@ Proof. intros H. unfold globmatch, fnmatch. symmetry. apply fnm_esc_irrelevant. 
 
 (* ---------- refutations (known findings) ---------- *)
 Definition s (l : list N) := l.
-(* "*foo" never matches ".xfoo": the key is the pattern text itself *)
-Lemma short_prefix_refuted :
-  let r := {| pat := [42; 102; 111; 111]; fpat := None; keep := false |} in
-  let name := [46; 120; 102; 111; 111] in
-  first_match [r] 0 name [] = Matched 0 false /\ lookup [r] name [] = NoRule.
-Proof. vm_compute. split; reflexivity. Qed.
-(* ".t*" : key text shorter than 4 bytes: from_rules panics *)
-Lemma short_key_panics :
-  lookup [{| pat := [46; 116; 42]; fpat := None; keep := false |}] [46; 116; 101; 120; 116] [] = Panic.
-Proof. vm_compute. reflexivity. Qed.
+(* patterns with fewer than four fixed leading bytes are matched too (they were not before the repair in /repo) *)
+Lemma short_patterns_now_match :
+  lookup [{| pat := [42; 102; 111; 111]; fpat := None; keep := false |}] [46; 120; 102; 111; 111] [] = Matched 0 false /\
+  lookup [{| pat := [46; 116; 42]; fpat := None; keep := true |}] [46; 116; 101; 120; 116] [] = Matched 0 true /\
+  lookup [{| pat := [46; 97; 98]; fpat := None; keep := false |}] [46; 97; 98] [] = Matched 0 false.
+Proof. vm_compute. repeat split. Qed.
 (* ".text.\**" : backslash is literal for the glob crate *)
 Lemma backslash_in_glob_refuted :
   let p := [46; 116; 101; 120; 116; 46; 92; 42; 42] in
@@ -161,7 +171,7 @@ Definition lit4 (p : list N) : Prop :=
   exists c1 c2 c3 c4 rest, p = c1 :: c2 :: c3 :: c4 :: rest /\
     ordinary true c1 = true /\ ordinary true c2 = true /\ ordinary true c3 = true /\ ordinary true c4 = true.
 Definition good (r : rule) : Prop :=
-  no_bs (pat r) /\ rewrite_neg (pat r) = pat r /\ lit4 (pat r) /\
+  no_bs (pat r) /\ rewrite_neg (pat r) = pat r /\
   match fpat r with None => True | Some fp => no_bs fp /\ rewrite_neg fp = fp end.
 
 Lemma analyze_loop_no_bs p : forall t, no_bs p -> t <> EscapedExact -> analyze_loop p t false <> EscapedExact.
@@ -210,15 +220,9 @@ Proof.
   intros (Hb & _). unfold key_text. pose proof (analyze_no_bs _ Hb). destruct (analyze (pat r)); try reflexivity. contradiction.
 Qed.
 
-Lemma good_key_ok r : good r -> key_ok r.
-Proof.
-  intros G. pose proof (good_key_text r G) as E. destruct G as (_ & _ & (c1 & c2 & c3 & c4 & rest & Hp & _) & _).
-  unfold key_ok. rewrite E, Hp. unfold key4. cbn. eauto.
-Qed.
-
 Lemma good_name_matches r name : good r -> name_matches r name = fnmatch (pat r) name.
 Proof.
-  intros (Hb & Hr & _ & _). unfold name_matches. pose proof (analyze_no_bs _ Hb) as Hne.
+  intros (Hb & Hr & _). unfold name_matches. pose proof (analyze_no_bs _ Hb) as Hne.
   destruct (analyze (pat r)) eqn:Ea; try contradiction.
   - unfold fnmatch. rewrite fnm_plain; [reflexivity|]. apply analyze_exact_plain; assumption.
   - rewrite Hr. apply glob_is_fnmatch. assumption.
@@ -228,47 +232,41 @@ Qed.
 Lemma good_rule_matches r name file : good r -> rule_matches r name file = spec_matches r name file.
 Proof.
   intros G. unfold rule_matches, spec_matches. rewrite (good_name_matches r name G).
-  destruct G as (_ & _ & _ & Hf). destruct (fpat r) as [fp|]; [|reflexivity].
+  destruct G as (_ & _ & Hf). destruct (fpat r) as [fp|]; [|reflexivity].
   destruct Hf as [Hb Hr]. rewrite Hr, glob_is_fnmatch by assumption. reflexivity.
 Qed.
 
-Lemma good_keyed r name file : good r -> rule_matches r name file = true ->
-  key_eqb (key4 (key_text r)) (key4 name) = true /\ (4 <= length name)%nat.
+Lemma not_meta_ordinary c : meta c = false -> ordinary true c = true.
 Proof.
-  intros G H. rewrite (good_rule_matches r name file G) in H. unfold spec_matches in H.
-  apply andb_prop in H. destruct H as [H _]. rewrite (good_key_text r G).
-  destruct G as (_ & _ & (c1 & c2 & c3 & c4 & rest & Hp & O1 & O2 & O3 & O4) & _).
-  rewrite Hp in *. unfold fnmatch in H. cbn [length] in H.
+  unfold meta, ordinary. intros H. repeat (apply orb_false_iff in H; destruct H as [H ?]). rewrite H, H2, H1, H0. reflexivity.
+Qed.
+
+(* a keyed rule that matches a name fixes the name's first four bytes *)
+Lemma good_keyed r name file : good r -> keyed r = true -> rule_matches r name file = true ->
+  key_eqb (key4 (key_text r)) (key4 name) = true.
+Proof.
+  intros G Hk H. rewrite (good_rule_matches r name file G) in H. unfold spec_matches in H.
+  apply andb_prop in H. destruct H as [H _]. unfold keyed in Hk. rewrite (good_key_text r G) in *.
+  unfold key4 in Hk at 1. destruct (Nat.ltb_spec (length (pat r)) 4) as [|Hlen]; [discriminate|].
+  destruct (pat r) as [|c1 [|c2 [|c3 [|c4 rest]]]] eqn:Ep; cbn [length] in Hlen; try lia.
+  assert (Hord : ordinary true c1 = true /\ ordinary true c2 = true /\ ordinary true c3 = true /\ ordinary true c4 = true).
+  { destruct (analyze (c1 :: c2 :: c3 :: c4 :: rest)) eqn:Ea.
+    - destruct G as (Hb & _). rewrite Ep in Hb. pose proof (analyze_exact_plain _ Ea Hb) as Hp. cbn [forallb] in Hp.
+      repeat (apply andb_prop in Hp; destruct Hp as [? Hp]). auto.
+    - destruct G as (Hb & _). rewrite Ep in Hb. exfalso. exact (analyze_no_bs _ Hb Ea).
+    - cbn [firstn existsb] in Hk. apply negb_true_iff in Hk. repeat (apply orb_false_iff in Hk; destruct Hk as [? Hk]). auto using not_meta_ordinary.
+    - cbn [firstn existsb] in Hk. apply negb_true_iff in Hk. repeat (apply orb_false_iff in Hk; destruct Hk as [? Hk]). auto using not_meta_ordinary. }
+  destruct Hord as (O1 & O2 & O3 & O4).
+  unfold fnmatch in H. cbn [length] in H.
   destruct (literal4 true _ c1 c2 c3 c4 rest name O1 O2 O3 O4 H) as [n' ->].
-  split; [|cbn; lia]. unfold key4. cbn. rewrite !N.eqb_refl. reflexivity.
+  unfold key4. cbn. rewrite !N.eqb_refl. reflexivity.
 Qed.
 
 Theorem good_lookup_is_first_match rs name file :
-  (forall r, In r rs -> good r) -> (4 <= length name)%nat ->
+  (forall r, In r rs -> good r) ->
   lookup rs name file = first_match rs 0 name file.
 Proof.
-  intros G Hl. apply lookup_is_first_match; try assumption.
-  - intros r Hin. apply good_key_ok. auto.
-  - intros r Hin Hm. apply (good_keyed r name file (G r Hin) Hm).
+  intros G. apply lookup_is_first_match.
+  - intros r Hin Hk Hm. apply (good_keyed r name file (G r Hin) Hk Hm).
   - intros r Hin. apply good_rule_matches. auto.
-Qed.
-
-(* names shorter than four bytes: no good rule matches them anyway, so NoRule is also what the spec says *)
-Theorem good_short_name rs name file :
-  (forall r, In r rs -> good r) -> (length name < 4)%nat ->
-  lookup rs name file = NoRule /\ first_match rs 0 name file = NoRule.
-Proof.
-  intros G Hl. split.
-  - unfold lookup.
-    assert (E : existsb (fun r => match key4 (key_text r) with None => true | Some _ => false end) rs = false).
-    { apply not_true_is_false. intros Hx. apply existsb_exists in Hx. destruct Hx as (r & Hin & Hr).
-      destruct (good_key_ok r (G r Hin)) as [k Hkk]. rewrite Hkk in Hr. discriminate. }
-    rewrite E. unfold key4. destruct (Nat.ltb_spec (length name) 4); [reflexivity|lia].
-  - assert (F : forall l i, (forall r, In r l -> good r) -> first_match l i name file = NoRule).
-    { induction l as [|r t IH]; intros i Gl; [reflexivity|]. cbn [first_match].
-      destruct (spec_matches r name file) eqn:Es.
-      - exfalso. rewrite <- (good_rule_matches r name file (Gl r (or_introl eq_refl))) in Es.
-        destruct (good_keyed r name file (Gl r (or_introl eq_refl)) Es). lia.
-      - apply IH. intros r' Hin. apply Gl. right. assumption. }
-    apply F. assumption.
 Qed.
